@@ -589,16 +589,21 @@ class CallK(E):
         out.extend(self.callee.ops())
 
     def ev(self, r):
-        vals = [k.ev(r) for k in self.kids]
-        saved = (r.args, r.func, r.line)
-        r.args = dict((n, v) for (n, _), v in zip(self.callee.params, vals))
+        saved = (r.args, r.func, r.line, r.arrays)
+        nargs, narrs = {}, {}
+        for (n, t), kid in zip(self.callee.params, self.kids):
+            if t.kind == "array":
+                narrs[n] = r.arrays[kid.name]
+            else:
+                nargs[n] = kid.ev(r)
+        r.args, r.arrays = nargs, narrs
         r.func = self.callee.func_id
         for st in self.callee.stmts:
             r.line = st.line
             st.ev(r)
         r.line = self.callee.result_line
         res = self.callee.result.ev(r) if self.callee.result is not None else None
-        r.args, r.func, r.line = saved
+        r.args, r.func, r.line, r.arrays = saved
         return res
 
 
